@@ -170,7 +170,8 @@ INT_DTYPES = {("g", "int"), ("g", "jax.numpy.int32"), ("g", "jax.numpy.int64"), 
 
 class Normalizer:
     def __init__(self, builder: Builder | None = None, keep_stop_gradient: bool = False,
-                 erase_error_if: bool = True, ite_poly: bool = False, bool_terms=()):
+                 erase_error_if: bool = True, ite_poly: bool = False, bool_terms=(), int_terms=()):
+        self.int_terms = set(int_terms)  # canonical atoms known to be integer-valued (from annotations)
         self.ite_poly = ite_poly  # Ite(c,a,b) = c*a + (1-c)*b; sound for finite a, b only
         self.bool_terms = set(bool_terms)  # canonical terms known to be Boolean-valued (from annotations)
         _IDEM.clear()
@@ -619,6 +620,9 @@ class Normalizer:
             fx = freeze(p)
             if fx in self.bool_terms or (isinstance(fx, tuple) and fx and fx[0] in ("B", "cmp")):
                 return p  # Bool -> int is value-preserving
+            if p and all(c.denominator == 1 for c in p.values()) and all(
+                    e > 0 and (a in self.int_terms or a in self.bool_terms) for m in p for a, e in m):
+                return p  # integer polynomial over integer atoms: the cast is the identity
             if list(p.keys()) in ([()], []) and all(c.denominator == 1 for c in p.values()):
                 return p
             return patom(("cast", "int", freeze(p)))
